@@ -47,6 +47,7 @@ pub fn plan() -> Plan {
             e.hostile = false;
             e
         })),
+        enumerate_symbols: None,
     }
 }
 
